@@ -19,6 +19,9 @@ impl ClassRef { #[verifier::external_body] pub fn init(&self) -> (r: Option<Valu
 pub open spec fn vm_frame(o: &Vm, n: &Vm) -> bool {
   n.raised == o.raised && n.ip == o.ip && n.builtin == o.builtin && n.call_log == o.call_log && n.capture_stub == o.capture_stub && n.called == o.called
 }
+/// ... and the temporary-root stack keeps its height
+pub open spec fn same_roots(o: &Vm, n: &Vm) -> bool { n.troots == o.troots
+}
 
 impl Vm {
   /// C16: a native body indexes its argument slice and unwraps value kinds directly; it may only run on arguments that passed its
@@ -27,23 +30,31 @@ impl Vm {
   pub fn verif_native_call(&mut self, native: NativeRef, args: &[Value]) -> (r: Call)
     requires native_accepts(native, args@)
     ensures final(self).ran@ == old(self).ran@.push((native, args@)), final(self).fiber.stack == old(self).fiber.stack, final(self).fiber.frames == old(self).fiber.frames,
-            vm_frame(old(self), final(self))
+            vm_frame(old(self), final(self)),
+            // a native pops what it pushed when it returns normally (assert_roots in debug builds); a `?` on the way skips the pops
+            r is Ok ==> final(self).troots == old(self).troots, final(self).troots@ >= old(self).troots@
   { Ok(Value { bits: 0 }) }
   #[verifier::external_body]
   pub fn verif_take_stub(&mut self, native: NativeRef) -> (r: FunRef)
-    ensures final(self).fiber == old(self).fiber, final(self).ran@ == old(self).ran@, vm_frame(old(self), final(self))
+    ensures final(self).fiber == old(self).fiber, final(self).ran@ == old(self).ran@, vm_frame(old(self), final(self)), same_roots(old(self), final(self))
   { FunRef { p: 0 } }
   #[verifier::external_body]
   pub fn verif_return_stub(&mut self, stub: FunRef)
-    ensures final(self).fiber == old(self).fiber, final(self).ran@ == old(self).ran@, vm_frame(old(self), final(self))
+    ensures final(self).fiber == old(self).fiber, final(self).ran@ == old(self).ran@, vm_frame(old(self), final(self)), same_roots(old(self), final(self))
   { }
+  /// push / pop on the allocator's temporary-root stack (through the RefCell: `&self`): balanced pairs in the extracted code, except the release
   #[verifier::external_body] pub fn push_root(&self, x: FunRef) { }
   #[verifier::external_body] pub fn pop_roots(&self, n: usize) { }
+  #[verifier::external_body] pub fn verif_temp_roots(&self) -> (r: usize) ensures r == self.troots@ { 0 }
+  /// pop_roots(n) as release_native_roots uses it
+  #[verifier::external_body] pub fn verif_pop_roots(&mut self, n: usize)
+    requires n <= old(self).troots@
+    ensures final(self).troots@ == old(self).troots@ - n, final(self).fiber == old(self).fiber, final(self).ran == old(self).ran, vm_frame(old(self), final(self)) { }
   /// real: store ip, Fiber::push_frame, load ip
   #[verifier::external_body]
   pub fn push_frame(&mut self, closure: FunRef, captures: CapturesRef, arg_count: u8)
     ensures final(self).fiber.frames@ == old(self).fiber.frames@.push(Frame { fun: closure, captures, arg_count }),
-            final(self).fiber.stack == old(self).fiber.stack, final(self).ran@ == old(self).ran@, vm_frame(old(self), final(self))
+            final(self).fiber.stack == old(self).fiber.stack, final(self).ran@ == old(self).ran@, vm_frame(old(self), final(self)), same_roots(old(self), final(self))
   { }
   /// real: drops the frame and resets the stack top to the frame's first slot (callee + arguments go)
   #[verifier::external_body]
@@ -51,21 +62,21 @@ impl Vm {
     requires old(self).fiber.frames@.len() > 0, old(self).fiber.stack@.len() >= old(self).fiber.frames@.last().arg_count as int + 1
     ensures final(self).fiber.frames@ == old(self).fiber.frames@.drop_last(),
             final(self).fiber.stack@ == old(self).fiber.stack@.subrange(0, old(self).fiber.stack@.len() - (old(self).fiber.frames@.last().arg_count as int + 1)),
-            final(self).ran@ == old(self).ran@, vm_frame(old(self), final(self))
+            final(self).ran@ == old(self).ran@, vm_frame(old(self), final(self)), same_roots(old(self), final(self))
   { None }
   #[verifier::external_body]
   pub fn set_exit(&mut self, code: u16) -> (r: ExecutionSignal)
-    ensures r == ExecutionSignal::Exit, final(self).fiber.frames == old(self).fiber.frames, final(self).ran@ == old(self).ran@, vm_frame(old(self), final(self))
+    ensures r == ExecutionSignal::Exit, final(self).fiber.frames == old(self).fiber.frames, final(self).ran@ == old(self).ran@, vm_frame(old(self), final(self)), same_roots(old(self), final(self))
   { ExecutionSignal::Exit }
   #[verifier::external_body]
   pub fn runtime_error(&mut self, error: ClassRef, message: LyStr) -> (r: ExecutionSignal)
     ensures r == ExecutionSignal::RuntimeError, final(self).raised@ == Some(error), final(self).fiber.frames == old(self).fiber.frames, final(self).fiber.stack == old(self).fiber.stack,
-            final(self).ran@ == old(self).ran@, final(self).builtin == old(self).builtin, final(self).called == old(self).called
+            final(self).ran@ == old(self).ran@, final(self).builtin == old(self).builtin, final(self).called == old(self).called, same_roots(old(self), final(self))
   { ExecutionSignal::RuntimeError }
   /// allocate an instance of `class`
   #[verifier::external_body]
   pub fn verif_new_instance(&mut self, class: ClassRef) -> (r: InstRef)
-    ensures r == new_instance_of(class), class_of_inst(r) == class, final(self).fiber == old(self).fiber, final(self).ran@ == old(self).ran@, vm_frame(old(self), final(self))
+    ensures r == new_instance_of(class), class_of_inst(r) == class, final(self).fiber == old(self).fiber, final(self).ran@ == old(self).ran@, vm_frame(old(self), final(self)), same_roots(old(self), final(self))
   { InstRef { p: 0 } }
 }
 
